@@ -35,7 +35,7 @@ type c17Scenario struct {
 }
 
 var c17Chars = []string{"a", "é", "中", "😀", "�", "\n", "𠀀", "ß", "\uFEFF", "\U0010FFFF", "\u07FF", "\uFFFF", "\U00010000"}
-var c17Counts = []int{0, 1, 2, 3, 5, 40, 1023, 1024, 1364, 1365, 1366, 2047, 2048, 2730, 2731, 4093, 4094, 4095, 4096, 4097, 8191, 8192, 8193, 12287, 12288, 13000, 16383, 16384, 16385}
+var c17Counts = []int{0, 1, 2, 3, 5, 40, 1023, 1024, 1364, 1365, 1366, 2047, 2048, 2730, 2731, 4093, 4094, 4095, 4096, 4097, 8191, 8192, 8193, 12287, 12288, 13000, 16383, 16384, 16385, 21845, 21846, 32767, 32768, 32769, 65535, 65536, 65537}
 
 // caller-chosen block sizes for FileStream.Read(n): shorter than a character, around the
 // default block, larger than most files
@@ -70,7 +70,7 @@ func genText(t *zsim.Tape) (string, string) {
 	for i := 0; i < nseg; i++ {
 		ch := c17Chars[t.Draw(len(c17Chars))]
 		n := c17Counts[t.Draw(len(c17Counts))]
-		if sb.Len()+n*len(ch) > 60000 {
+		if sb.Len()+n*len(ch) > 300000 {
 			n = 3
 		}
 		sb.WriteString(strings.Repeat(ch, n))
@@ -225,10 +225,18 @@ func runC17(t *zsim.Tape, cfg *hlib.Config) *hlib.Outcome {
 	}
 	d.Put(srcPath, data)
 	eioPlanned := false
-	if sc.Profile == "stream" && t.Draw(3) == 2 {
-		// the source is a named pipe / process substitution: stat reports size 0
-		d.PutPipe(srcPath, data)
-		sc.Class += "+pipe(stat size 0)"
+	if sc.Profile == "stream" {
+		switch t.Draw(6) {
+		case 4, 5:
+			// the source is a named pipe / process substitution: stat reports size 0
+			d.PutPipe(srcPath, data)
+			sc.Class += "+pipe(stat size 0)"
+		case 3:
+			// a regular file of a synthetic file system: stat says one page (or nothing), whatever it holds
+			sz := []int64{4096, 0, 1}[t.Draw(3)]
+			d.PutSynthetic(srcPath, data, sz)
+			sc.Class += fmt.Sprintf("+synthetic(stat size %d)", sz)
+		}
 	}
 	if sc.Profile == "stream" {
 		d.ReadMode = 1
@@ -357,6 +365,38 @@ func runC17(t *zsim.Tape, cfg *hlib.Config) *hlib.Outcome {
 		for i, l := range disp {
 			if l != fmt.Sprintf("L%d", i+1) {
 				return fail("LoadFile:altered", fmt.Sprintf("display line %d is %q", i+1, l))
+			}
+		}
+		// a new version of the file is put in place — same path, same size, same timestamp (the
+		// simulated disk never changes a modification time: cp -p, rsync -a, a release with
+		// normalised timestamps) — and loaded again in the same process: it is the NEW content that
+		// must be decoded, or rejected if it is not UTF-8
+		if sc.Profile == "regular" && t.Draw(3) == 2 {
+			at := bytes.Index(data, []byte("“L1”"))
+			if at < 0 {
+				return out
+			}
+			data2 := append([]byte{}, data...)
+			at += len("“")
+			damaged := t.Draw(2) == 1
+			if damaged {
+				data2[at] = 0xFF
+			} else {
+				data2[at] = 'K'
+			}
+			d.Put(srcPath, data2)
+			sc.Class += fmt.Sprintf("+redeployed(same size, damaged=%v)", damaged)
+			w.Out.Reset()
+			res2 := runFile(w, newInterp(), "/src/main.zn", nil)
+			switch {
+			case res2.Panic != "":
+				return fail("LoadFile:panic", "Go panic on the second load: "+res2.Panic)
+			case damaged && res2.Err == "":
+				return fail("LoadFile:redeployed-invalid-utf8-executed", fmt.Sprintf("the file was replaced by one of the same size that is not valid UTF-8 (0xFF at byte %d); the second load executed something and displayed %v", at, res2.Display))
+			case !damaged && res2.Err != "":
+				return fail("LoadFile:redeployed-valid-rejected", "second load of the replaced (valid) file failed: "+firstLines(res2.Err, 4))
+			case !damaged && (len(res2.Display) == 0 || res2.Display[0] != "K1"):
+				return fail("LoadFile:redeployed-old-content-executed", fmt.Sprintf("the file was replaced by one of the same size whose first line displays K1; the second load displayed %v", res2.Display))
 			}
 		}
 		return out
